@@ -32,6 +32,7 @@ def run(ck):
     ck.rule("X-BUF", "reads inside the buffer"); ck.rule("X-DECL", "reads inside the declared PDU (before the CRC trailer for parameters)")
     ck.rule("E-ESC", "documented exception classes only"); ck.rule("P-MUST", "CRC verified when the flag is set")
     ck.rule("Q-EQ", "__eq__ sensitive to every parameter")
+    ck.rule("A-ALIAS", "constructing/packing stores nothing into the caller's configuration (shared with C11)")
     ck.trusted += ["struct/bytearray/slice semantics as modelled", "reference tables in spverif/pdus.py", "str.encode()/decode() are opaque, length-correct primitives"]
     ck.assumptions += ["enum-typed parameters are members of their enums", "TLV list elements are well-formed TLV objects",
                        "decoded TLV/segment lists produced by summarised loops are checked for bounds and progress, not element-wise"]
@@ -72,3 +73,7 @@ def run(ck):
     ck.floor("directive pack analyses", npack, 7 * len(cases))
     DEC.check_directive_decoders(ck, P, cases)
     DEC.check_equalities(ck, P)
+    # "data-field length equal to the number of octets after the header" also holds for a PDU whose parameters were
+    # changed through its setters: the mutated-versus-fresh sequences of C11, per directive kind, under two cases
+    from ..report import run_parallel
+    run_parallel(ck, "spverif.props.c11", "pdu_task", [(k.name, c) for k in PD.DIRECTIVES for c in (cases[0], cases[3 if len(cases) > 3 else -1])])
